@@ -8,7 +8,7 @@ a z3 array term; the pad-codeword loop is cut at a quantified loop invariant.
 """
 import z3
 from pyvc.runner import Task
-from pyvc.sym import s_and, s_or, s_not, s_implies, SInt, SBool, fresh_name, _z, zb, QForall
+from pyvc.sym import s_and, s_or, s_not, s_implies, SInt, SBool, fresh_name, _z, zb, QForall, Unsupported
 from pyvc.values import Obj, SBits
 from pyvc.interp import LoopSpec
 from spec import iso
@@ -88,7 +88,9 @@ def task_padding(I, v, lv):
     # every loop of write_pad_codewords appends pad codewords alternately: same invariant
     from pyvc import extract
     n_loops = len(extract.loops_of(f_padc.node))
-    I.ground('C13.write_pad_codewords.has_loop_contracts', n_loops >= 1, witness=n_loops)
+    if n_loops < 1:
+        # the pad loop moved elsewhere (e.g. into a helper): the loop contract does not attach - undecided, not a violation
+        raise Unsupported('loop contract does not attach: write_pad_codewords has no loop')
     for o in range(1, n_loops + 1):
         I.loopspecs[('segno.encoder:write_pad_codewords', o)] = _pad_loop_spec(I)
     state = {}
